@@ -105,6 +105,23 @@ CHECKS['C11'] = dict(
               'lemmas, z3 (regex) / cvc5 (strings)',
     thorough=True)
 
+CHECKS['C12'] = dict(
+    category='proof',
+    text='Parse side: _read_header is verified to report options == '
+         'ParseOpts(pairs), a fold over the pairs; an inductive lemma (three '
+         'discharged obligations) shows that inserting a pair with a new key '
+         'at any position changes that fold only at the new key. Use side: a '
+         'frame obligation evaluated over every verification condition of '
+         'iter_sections shows its behaviour depends on the options mapping '
+         'only through the six known keys, the record carrying the mapping '
+         'itself. A randomized insertion test over writer-produced files is '
+         'the labelled bounded stand-in.',
+    design_ref='5/C12',
+    technique='contract-based deductive verification: fold invariant + '
+              'insertion lemma (arrays/EUF) + frame obligation over the '
+              'generated VCs',
+    thorough=True)
+
 NOT_YET = 'check not built yet (work in progress; see DESIGN.md section 5)'
 NA = {}
 
